@@ -68,14 +68,14 @@ theorem lcgNext_lt (x : Nat) : lcgNext x < 2 ^ 64 := by
   exact Nat.mod_lt _ (by decide)
 
 /-- the halving loop keeps `n · 2^(53 - k)` and never lets `k` exceed its start -/
-theorem red_inv : ∀ (f n k : Nat), k ≤ 53 →
-    (randUnit.red f n k).1 * 2 ^ (53 - (randUnit.red f n k).2) = n * 2 ^ (53 - k) ∧ (randUnit.red f n k).2 ≤ k := by
+theorem unitRed_inv : ∀ (f n k : Nat), k ≤ 53 →
+    (unitRed f n k).1 * 2 ^ (53 - (unitRed f n k).2) = n * 2 ^ (53 - k) ∧ (unitRed f n k).2 ≤ k := by
   intro f
   induction f with
   | zero => intro n k _; exact ⟨rfl, Nat.le_refl _⟩
   | succ f ih =>
     intro n k hk
-    simp only [randUnit.red]
+    simp only [unitRed]
     split
     · rename_i hc
       obtain ⟨h1, h2⟩ := ih (n / 2) (k - 1) (by omega)
@@ -88,5 +88,41 @@ theorem red_inv : ∀ (f n k : Nat), k ≤ 53 →
             rw [Nat.mul_comm (2 ^ (53 - k)) 2, ← Nat.mul_assoc, Nat.mul_comm (n / 2) 2]
         _ = n * 2 ^ (53 - k) := by rw [← this]
     · exact ⟨rfl, Nat.le_refl _⟩
+
+theorem unitDec_range (x : Nat) (hx : x < 2 ^ 64) :
+    ∃ (c k : Nat), unitDec x = { neg := false, coeff := c, exp := -(k : Int) } ∧ c < 10 ^ k := by
+  unfold unitDec
+  by_cases hm : x / 2048 = 0
+  · simp only [hm, if_true]
+    exact ⟨0 * 5 ^ 0, 0, rfl, by decide⟩
+  · simp only [hm, if_false]
+    obtain ⟨h1, h2⟩ := unitRed_inv 53 (x / 2048) 53 (Nat.le_refl _)
+    generalize unitRed 53 (x / 2048) 53 = r at h1 h2
+    obtain ⟨n, k⟩ := r
+    refine ⟨n * 5 ^ k, k, rfl, ?_⟩
+    simp only at h1 h2
+    have hmlt : x / 2048 < 2 ^ 53 := by
+      have e : (2 : Nat) ^ 64 = 2 ^ 53 * 2048 := by rfl
+      rw [e] at hx
+      exact Nat.div_lt_of_lt_mul (by rw [Nat.mul_comm]; exact hx)
+    rw [Nat.sub_self, Nat.pow_zero, Nat.mul_one] at h1
+    have hn : n < 2 ^ k := by
+      have hpow : 2 ^ 53 = 2 ^ k * 2 ^ (53 - k) := by rw [← Nat.pow_add]; congr 1; omega
+      rw [← h1, hpow] at hmlt
+      exact Nat.lt_of_mul_lt_mul_right hmlt
+    have : (10 : Nat) ^ k = 2 ^ k * 5 ^ k := by rw [← Nat.mul_pow]
+    rw [this]
+    exact Nat.mul_lt_mul_of_pos_right hn (Nat.pow_pos (by decide))
+
+/-- **rand() ∈ [0, 1)** for every generator state: the result is the non-negative decimal
+    `coeff · 10^(-k)` with `coeff < 10^k` -/
+theorem randUnit_range (s : BState) :
+    ∃ (c k : Nat) (s' : BState), randUnit s = .ok (.dec { neg := false, coeff := c, exp := -(k : Int) } true, s') ∧
+      c < 10 ^ k ∧ s'.heap = s.heap := by
+  obtain ⟨c, k, he, hlt⟩ := unitDec_range (lcgNext s.rng) (lcgNext_lt s.rng)
+  refine ⟨c, k, { s with rng := lcgNext s.rng }, ?_, hlt, rfl⟩
+  unfold randUnit
+  simp only [ret]
+  rw [he]
 
 end Sq
